@@ -136,4 +136,22 @@ REG = {
          "relative, 32 eps below; Factorial within 16 eps. Inverse round trips are skipped where the quantile underflows (a<0.06, p<P(1e-290,a)). "
          "Trusted: TLC, libm long-double expl/erfcl/sqrtl/logl/lgammal.",
     technique="arbitrary-precision TLA+ specification of the rational part of the Gamma family (TLC: memo-table state machine, Pascal, exact Q series as a Horner machine) + replay of exported exact values + trace validation of recorded relations"),
+ "C02": dict(
+    engine="spec/Ridder.tla, MC_Ridder.tla, Trace_Root.tla (2 cfgs); harness/c02.cpp",
+    design_ref="DESIGN.md §4.2",
+    text="Ridder.tla is Find_Root as a state machine on a finite ordered grid (which is what floating-point abscissae are) with the function known "
+         "through its sign: ends and sign checks, midpoint with either rounding, x4 anywhere between the midpoint and the bracket end on the root's side, "
+         "the code's three re-bracketing cases, the stopping rule and the iteration cap. TLC explores every root configuration (a zero at a position, "
+         "a sign change between positions, every triple of sign changes, brackets without sign change), accuracy and non-deterministic choice and proves: "
+         "the bracket always holds a sign change, brackets are nested and at least halve per iteration, nothing is evaluated outside, the 'does not reach "
+         "the root' exit is dead, zero ends are returned as is, exits happen exactly without sign change, and the returned position has a sign change "
+         "within the accuracy -- for the verified stopping rule; for the pinned rule (successive iterates) TLC refutes that last invariant, which is the "
+         "defect repaired in /repo. Recorded executions of the real Find_Root (wrapped function, twelve continuous families, both argument orders, widths "
+         "1e-9..1e12, accuracies from 1e-14|root| to the width) are ranked and validated against Trace_Root: evaluations inside the bracket, ends first, "
+         "zero end returned without further evaluation, sign change or zero within the accuracy of the returned point, identical bits for both orders, "
+         "linear functions solved to rounding, rejected brackets exit with status and diagnostic.",
+    note="The accuracy clause is witnessed by the function's own signs on 65 samples of [x-acc, x+acc] or by a planted root; continuity is assumed of the "
+         "generated families. The algorithm-level structure (x3 inside, x4 on the root's side, probes) is checked by a second configuration of the trace "
+         "specification and reported as model drift only. Function values that overflow are not generated.",
+    technique="TLA+ state machine of Ridder's method on an ordered grid (TLC exhaustive over root configurations and non-deterministic iterates; refutes the pinned stopping rule) + trace validation of recorded executions in rank space"),
 }
